@@ -34,8 +34,8 @@ GO_ODD = ["go ponder wtime 400 btime 400 movestogo 2", "go searchmoves e2e4 d2d4
           "go\twtime 200 btime 200 movestogo 1", "go wtime 200 btime 200 movestogo 1 nodes", "go mate wtime 250 btime 250 movestogo 1"]
 LONG_GARBAGE = ["x" * 63 + "\u00e9" + "y" * 10, "\u00e9" * 40, "z" * 62 + "\u2654\u2654 tail", "debug " + "\u00df" * 70, "q" * 64 + "\u00e9"]
 GARBAGE = ["", " ", "   \t ", "xyzzy", "stop", "ponderhit", "debug on", "register later", "isreadyy", "go2", "ucinewgame now", "éè ♔",
-           "a" * 3000, "uci", "setoption name Hash value 32", "setoption name Ponder value true", "ucinewgame", "flip", "d", "eval", "bench", "print",
-           "Go", "POSITION startpos", "quit1", "%s%s%n", "\x07\x1b[0m", "go_", "isready ", "   "]
+           "a" * 3000, "uci", "setoption name Hash value 32", "setoption name Ponder value true", "setoption name Clear Hash", "setoption name Ponder", "setoption", "setoption value 12", "setoption name", "ucinewgame", "flip", "d", "eval", "bench", "print",
+           "Go", "POSITION startpos", "quit1", "gobble", "goo wtime 1000 btime 1000", "quitter", "isreadyx", "positions startpos moves e2e4", "setoptions name DebugLogLevel value Info", "ucinewgames", "%s%s%n", "\x07\x1b[0m", "go_", "isready ", "   "]
 
 
 def mk(pid, tier, replay):
